@@ -97,7 +97,7 @@ func DecodeQuestion(p DNS, index int, buffer []byte) (question Question, off int
 	}
 
 	// get first answer
-	if index+6 > len(p) { // must have at least 2 bytes name, 4 bytes type and class
+	if index+5 > len(p) { // must have at least 1 byte name (the root name), 4 bytes type and class
 		return Question{}, -1, ErrParseFrame
 	}
 	name, endq, err := decodeName(p, index, &buffer, 1)
